@@ -103,7 +103,7 @@ def gen_cases(tier, seed):
     cases = []
     for i in range(n):
         pure = (i % 2 == 0)
-        opts = dict(exprs=False, p_clause=1.0, p_clause_cond=0.0, p_leading_binder=0.0) if pure else {}
+        opts = dict(exprs=False, p_clause=1.0, p_clause_cond=0.0, p_leading_binder=0.0, p_binder_join=0.0) if pure else {}
         p = gen_dl.gen_program(rng, opts)
         inputs = [gen_dl.gen_input(rng, p["rels"], style=rng.choice(["small", "mixed", "sparse_chain"]))[0] for _ in range(2)]
         cases.append(dict(id="c06_%d" % i, prog=p, inputs=inputs, pure=pure, variants=variants(rng, p, inputs, pure)))
